@@ -122,12 +122,13 @@ Definition out_of_line (p : part) : bool :=
 Definition inline_row (p : part) : partrow := mkRow None (p_content p) (p_enc p) (p_content p).
 Definition blob_row (p : part) (id : nat) : partrow := mkRow (Some id) [] (p_enc p) (p_content p).
 
-(** parser.blobHoldsContent (fix 573e876): does the row that StoreBlob* found
-    or created hold exactly the part's octets?
+(** parser.blobHoldsContent (fixes 573e876, 03ae0ff): does the row that
+    StoreBlob* found or created hold exactly the part's octets?
       storedS3ID != "" (the S3 branch stored the row): GetBlobS3BlobID is
         (storedS3ID, "s3");
-      else: GetBlob == content — and GetBlob answers "" for EVERY S3 row, so an
-        empty part "is held" by any S3-form blob with its hash (bug kept). *)
+      else: GetBlob == content, and for an empty content the row must not be
+        an S3 row (GetBlob answers "" for every S3 row) — so an S3 row never
+        holds a part that was not put into S3 by this store. *)
 Definition blob_holds (bl : list blobrow) (id : nat) (content : str) (stored : option str) : bool :=
   match get_blob bl id with
   | None => false
@@ -136,7 +137,7 @@ Definition blob_holds (bl : list blobrow) (id : nat) (content : str) (stored : o
       | Some (c0 :: k0) =>
           match b_form b with FS3 k' => str_eqb k' (c0 :: k0) | FLocal _ => false end
       | _ =>
-          match b_form b with FLocal c => str_eqb c content | FS3 _ => str_eqb [] content end
+          match b_form b with FLocal c => str_eqb c content | FS3 _ => false end
       end
   end.
 
@@ -284,26 +285,10 @@ Definition read_failed (s3on : bool) (w : world) (row : partrow) (o : oracle) : 
       end
   end.
 
-(** ---- finding classes (decidable, on the history's state and the row) *)
-Inductive finding := EmptyPartS3Blob.
-
+(** the blob's stored form is this part's own text (no finding class is left:
+    every row that points at a blob satisfies this, Proof/BlobsInv.v row_ok) *)
 Definition form_is_own (f : form) (own : str) : bool :=
   match f with FLocal c => str_eqb c own | FS3 k => str_eqb k (okey own) end.
 
-(** EmptyPartS3Blob: the row points at a blob whose stored form is not this
-    part's text.  Since fix 573e876 this is only reachable for an EMPTY part
-    linked, by a writer that did not itself put it into S3, to an S3-form blob
-    with the same decoded hash (c15_residual_class_is_empty_s3). *)
-Definition classify (w : world) (row : partrow) : option finding :=
-  match r_blob row with
-  | None => None
-  | Some id =>
-      match get_blob (w_blobs w) id with
-      | None => None
-      | Some b => if negb (form_is_own (b_form b) (r_own row)) then Some EmptyPartS3Blob else None
-      end
-  end.
-
 End Keyed.
 
-Definition finding_eqb (a b : finding) : bool := true.
